@@ -198,7 +198,7 @@ def evaluate__div_operator(self: XPathToken, context: ta.ContextType = None) \
             isinstance(dividend, (int, decimal.Decimal)) and \
             isinstance(divisor, (int, decimal.Decimal)):
         raise self.error('FOAR0001')
-    elif dividend == 0 or math.isnan(dividend):
+    elif dividend == 0 or dividend != dividend:  # NaN test without converting a huge integer
         return math.nan
     elif dividend > 0:
         return float('-inf') if str(divisor).startswith('-') else float('inf')
